@@ -52,7 +52,7 @@ def build_cases(tier, seed):
     meta = {
         "family": famtxt + " x m x {RandomDictator, BoostedRandomDictator} (exact law of the winner sequence); "
                   "random tiebreaks: " + common.family_text(tier, rational=False, extra4=False) + " and Prof(Weak(3),2,{1,2}) x "
-                  "{Plurality, Borda, STV/IRV/SequentialRCV first-round ties} with tiebreak='random'; tiebreak_set on sets of size 2..4",
+                  "{Plurality, Borda, STV/IRV/SequentialRCV ties of every round, conditional on the rounds before} with tiebreak='random'; tiebreak_set on sets of size 2..4",
         "assumptions": ["laws of random.choices / random.sample / np.random.choice / a uniform variate are trusted (E1 table)",
                         "states with no first-place weight left are outside C17 (law undefined), judged by C01",
                         "BoostedRandomDictator computes its squares in float64: compared within 1e-12"],
@@ -269,6 +269,72 @@ def run_tb(i, case, kind, cnt, out):
                                               f"expected {F(1, len(T))} each"))
 
 
+def run_rounds(i, case, cnt, out):
+    """Every round of every STV-family count: given the rounds so far, a tie for elimination is resolved uniformly among the
+    tied candidates with the fewest initial first-place votes, and a one-by-one election tie (tiebreak='random') uniformly
+    among the tied leaders -- whether or not the round records a tiebreak."""
+    cs = case[0]
+    n = len(cs)
+    fp0 = refs.ref_fpv(case)
+    for rule in ("STV", "IRV", "SequentialRCV"):
+        for m in ((1,) if rule == "IRV" else range(1, n + 1)):
+            for sim in ((True,) if rule == "IRV" else (True, False)):
+                vrule, kw, tr = common.stv_ctor(rule, m, "droop", sim, "random")
+                tree = {}
+                bad = False
+                for p in chooser.explore_all(vkit.election_fn(vrule, case, kw), max_paths=20000):
+                    cnt["executions"] += 1
+                    if p.exc is not None:
+                        bad = True
+                        break
+                    states = vkit.canon_election(p.result)
+                    for r in range(1, len(states)):
+                        ev = (states[r][2], states[r][3])
+                        d = tree.setdefault(states[:r], {})
+                        d[ev] = d.get(ev, F(0)) + p.prob
+                if bad:
+                    cnt["skipped_exception"] += 1
+                    continue
+                for prefix, evs in tree.items():
+                    prev = prefix[-1]
+                    live = [c for g in prev[1] for c in g]
+                    sc = dict(prev[5])
+                    if len(live) < 2 or any(c not in sc for c in live):
+                        continue
+                    tot = sum(evs.values())
+                    elim_only = all(not [c for g in el for c in g] and len([c for g in xs for c in g]) == 1 for el, xs in evs)
+                    elect_one = all(len([c for g in el for c in g]) == 1 and not [c for g in xs for c in g] for el, xs in evs)
+                    if elim_only:
+                        low = min(sc[c] for c in live)
+                        T = [c for c in live if sc[c] == low]
+                        if len(T) < 2:
+                            continue
+                        lowest0 = min(fp0[c] for c in T)
+                        L = sorted(c for c in T if fp0[c] == lowest0)
+                        got = {[c for g in xs for c in g][0]: pr / tot for (el, xs), pr in evs.items()}
+                        what = "elimination"
+                    elif elect_one and not sim and len(prefix) >= 1:
+                        top = max(sc[c] for c in live)
+                        T = [c for c in live if sc[c] == top]
+                        if len(T) < 2:
+                            continue
+                        L = sorted(T)
+                        got = {[c for g in el for c in g][0]: pr / tot for (el, xs), pr in evs.items()}
+                        what = "election"
+                        if not set(got) <= set(T):
+                            continue  # elected without a tie at the top (seats = candidates left): not a tiebreak
+                    else:
+                        continue
+                    cnt["laws_checked"] += 1
+                    cnt["round_ties_checked"] += 1
+                    exp = {c: F(1, len(L)) for c in L}
+                    if got != exp:
+                        out["viols"].append(_viol("tiebreak_law", rule, kw, i,
+                                                  f"round {len(prefix)}: {what} tie {sorted(T)} on tallies { {c: str(sc[c]) for c in sorted(T)} } is resolved with "
+                                                  f"probabilities { {c: str(v) for c, v in sorted(got.items())} }, expected { {c: str(v) for c, v in exp.items()} }"))
+                        return
+
+
 def run_set(i, k, cnt, out):
     from votekit.utils import tiebreak_set
 
@@ -297,6 +363,8 @@ def run_case(i, tier):
         run_rd(i, c, cnt, out)
     elif kind in ("tb", "tbw"):
         run_tb(i, c, kind, cnt, out)
+        if kind == "tb":
+            run_rounds(i, c, cnt, out)
     else:
         run_set(i, c, cnt, out)
     cnt["states"] += 1
